@@ -581,6 +581,32 @@ func corrC07(r *Run) {
 				}
 			}
 		}
+		// ---- the single-part shortcut with MIXED widths: narrow characters up to the limit and one wide character
+		//      (69 BMP + 1 supplementary-plane character = 142 octets of UCS-2; 159 default + 1 extension character = 161 septets)
+		for ri, ref := range []uint16{256, 255} {
+			if r.Quick && ri > 0 {
+				break
+			}
+			for d := -2; d <= 1; d++ {
+				if r.Quick && d == -2 {
+					continue
+				}
+				k := 140/unitA - ks[len(ks)-1]/unitA + d
+				if cd.gsm {
+					k = 160 - 2 + d
+				}
+				if k < 0 {
+					continue
+				}
+				for pi, pos := range []int{0, k, k / 2} {
+					if r.Quick && pi == 2 {
+						break
+					}
+					t := append(append(rept(a, pos), b), rept(a, k-pos)...)
+					c.compose(cd, t, ref, "mixed widths around the single-part limit")
+				}
+			}
+		}
 		// ---- the message-waiting / message-class data_coding values that carry this coding (GSM 7-bit: 0xD0-0xDF, 0xF0-0xF3,
 		//      0xF8-0xFB; UCS-2: 0xE0-0xEF, 0xF4-0xF7, 0xFC-0xFF): the single-part limit, full parts (maximality), a wide
 		//      character at the boundary, mixtures
@@ -743,6 +769,26 @@ func corrC07(r *Run) {
 			if !r.Quick {
 				c.compose(cd, rept(a, per*253+1), ref, "254 parts, last one short")
 				c.compose(cd, rept(a, per*300), ref, "300 parts: must be refused")
+			}
+		}
+	}
+	// ---- data_coding values WITHOUT an encoder or splitter (reserved values, 8-bit data, 0xC0-0xCF): nothing is claimed
+	//      about the result, but the call must come back (an error), not panic
+	for _, b := range []int{2, 4, 9, 0x0F, 0xBF, 0xC0, 0xC8, 0xCF, 0x80} {
+		dc := coding.DataCoding(b)
+		if dc.Encoding() != nil && dc.Splitter() != nil {
+			continue
+		}
+		for _, t := range []string{"", "a", strings.Repeat("a", 200)} {
+			in := fmt.Sprintf("compose data_coding=%d (no encoder) ref=1 text=%s", b, describeText([]rune(t)))
+			var parts []pdu.ShortMessage
+			var err error
+			panicked, msg := guard(func() { parts, err = pdu.ComposeMultipartShortMessage(t, dc, 1) })
+			r.Count(in, true, "data_coding without an encoder")
+			if panicked {
+				r.Fail("compose/panic", "ComposeMultipartShortMessage panicked for a data coding without an encoder", in, msg, "an error")
+			} else if err == nil && len(parts) > 0 && t != "" {
+				r.Fail("compose/no-encoder-but-parts", "parts were returned for a data coding that has no encoder", in, fmt.Sprintf("%d parts", len(parts)), "an error")
 			}
 		}
 	}
